@@ -111,6 +111,29 @@ func runC09(c *eng.Ctx) {
 		t := eng.ExprString(as.Rhs[0])
 		return t == "db.Head().Size()" || (as.Tok.String() == "+=" && t == "block.Size()")
 	})
+	// what "the head's size" is: WAL, out-of-order WAL and head chunk files, each counted whenever it exists
+	{
+		hs := c.Fn("tsdb:Head.Size")
+		for _, s := range []struct{ field, cond string }{{"wal", "h.wal != nil"}, {"wbl", "h.wbl != nil"}} {
+			s := s
+			m := p.MethodOn("tsdb:Head."+s.field, "Size")
+			hs.Has("R1", m, 1)
+			hs.Only("R1", m, "is skipped only when there is no such log (`"+s.cond+"`)", func(l eng.Loc) bool {
+				for _, e := range hs.CondExprs() {
+					t := eng.ExprString(e)
+					if strings.Contains(t, "h."+s.field) && t != s.cond {
+						return false
+					}
+				}
+				return hs.UnderCond(l, s.cond)
+			})
+		}
+		hs.DomOK("R1", p.MethodOn("tsdb:Head.chunkDiskMapper", "Size"))
+		hs.Only("R1", eng.Return("", nil), "returns the sum of the three sizes", func(l eng.Loc) bool {
+			lf, ok := eng.Linear(hs.Info, l.Node.(*ast.ReturnStmt).Results[0])
+			return ok && lf.String() == "+1*cdmSize +1*walSize +1*wblSize"
+		})
+	}
 	c.Fn("tsdb:BeyondTimeRetention").AstEvery("R1", "retention test", func(n ast.Node) bool {
 		is, ok := n.(*ast.IfStmt)
 		return ok && strings.Contains(eng.ExprString(is.Cond), "retentionDuration") && strings.Contains(eng.ExprString(is.Cond), "MaxTime")
